@@ -40,3 +40,48 @@ def svd2(a, full_matrices=True, compute_uv=True, **k):
 
 def install_svd2(F):
     npproxy.NP.stubs["linalg.svd"] = svd2
+
+
+# ---------------------------------------------------------------- scipy cdist / log
+def cdist_sym(a, b, metric="euclidean", **kw):
+    """scipy.spatial.distance.cdist on symbolic input: pairwise sqrt of sums of squares"""
+    import scipy.spatial.distance as ssd
+
+    if not core.has_sym(a, b):
+        r = ssd.cdist(npproxy._defloat(np.asarray(a)), npproxy._defloat(np.asarray(b)), metric, **kw)
+        return r.astype(object)
+    if metric != "euclidean" or kw:
+        raise core.Unsupported("cdist metric %r on symbolic input" % (metric,))
+    a, b = core.O(a), core.O(b)
+    out = np.empty((a.shape[0], b.shape[0]), dtype=object)
+    for i in range(a.shape[0]):
+        for j in range(b.shape[0]):
+            s = 0
+            for k in range(a.shape[1]):
+                d = a[i, k] - b[j, k]
+                s = s + d * d
+            out[i, j] = s.sqrt() if isinstance(s, Sym) else float(np.sqrt(float(s)))
+    return out
+
+
+_LOG = z3.Function("log", z3.RealSort(), z3.RealSort())
+
+
+def log_sym(x):
+    """np.log on symbolic input: an uninterpreted function (the properties never depend on its values)"""
+    def one(v):
+        if isinstance(v, Sym):
+            return Sym.var(_LOG(v.t))
+        v = float(v)
+        return float(np.log(v)) if v > 0 else (-np.inf if v == 0 else np.nan)
+    return npproxy.elementwise(one)(x)
+
+
+def install_cdist(F, *modules):
+    """replace module-level `cdist` (imported by name) in the given menpo modules"""
+    for m in modules:
+        F.patch(m, "cdist", cdist_sym)
+
+
+def install_log(F):
+    npproxy.NP.stubs["log"] = log_sym
